@@ -88,6 +88,7 @@ func ExploreSeq(job string, cfg SeqCfg) *SeqStats {
 		st.Sequences++
 		st.Transitions += int64(len(h))
 		if v != nil {
+			closeSys(s)
 			rp := SeqReplay{Job: job, Ops: append([]int(nil), h...), Txt: opsText(&cfg, h)}
 			v.Replay = mustJSON(rp)
 			v.Job = job
@@ -103,7 +104,9 @@ func ExploreSeq(job string, cfg SeqCfg) *SeqStats {
 		if len(st.Sample) == 0 && len(h) >= 3 {
 			st.Sample = opsText(&cfg, h)
 		}
-		return s.Key(), true
+		k := s.Key()
+		closeSys(s)
+		return k, true
 	}
 	overtime := func(depth int) bool {
 		if !cfg.Deadline.IsZero() && st.Sequences%256 == 0 && time.Now().After(cfg.Deadline) {
@@ -118,9 +121,12 @@ func ExploreSeq(job string, cfg SeqCfg) *SeqStats {
 	rec = func(hist []int) {
 		base, v := replaySeq(&cfg, hist)
 		if v != nil {
+			closeSys(base)
 			return
 		}
-		for _, op := range base.Enabled() {
+		enabled := base.Enabled()
+		closeSys(base)
+		for _, op := range enabled {
 			if stop || overtime(len(hist)+1) {
 				return
 			}
@@ -157,9 +163,12 @@ func ExploreSeq(job string, cfg SeqCfg) *SeqStats {
 		for _, hist := range cur {
 			base, v := replaySeq(&cfg, hist)
 			if v != nil {
+				closeSys(base)
 				continue
 			}
-			for _, op := range base.Enabled() {
+			enabled := base.Enabled()
+			closeSys(base)
+			for _, op := range enabled {
 				if stop || overtime(depth) {
 					return st
 				}
@@ -206,8 +215,19 @@ func (st *SeqStats) Into(r *Result) {
 	r.AddExtra("seq_distinct_states", int64(len(st.States)))
 }
 
+// closeSys releases a system that offers a Close method (worlds with goroutines).
+func closeSys(s SeqSys) {
+	if s == nil {
+		return
+	}
+	if c, ok := s.(interface{ Close() }); ok {
+		c.Close()
+	}
+}
+
 // ReplaySeq re-runs a recorded operation sequence.
 func ReplaySeq(cfg SeqCfg, ops []int) *Violation {
-	_, v := replaySeq(&cfg, ops)
+	s, v := replaySeq(&cfg, ops)
+	closeSys(s)
 	return v
 }
